@@ -74,8 +74,11 @@ def _job(a):
         # where does it spin?  re-run with the pass hook for a short time and read the last pass reached
         hooks = os.path.join(os.path.dirname(os.path.dirname(unc)), "hooks", "uncrustify")
         tr = os.path.join(tmp, "f%d.nd" % i)
-        rc2, so2, se2, evs = obs.run(hooks if os.path.exists(hooks) else unc, ["-c", cfg, "-q", "-l", lang, "-f", src], cwd=tmp, trace=tr, flags=["PASS"], timeout=4)
-        passes = [e["name"] for e in evs if e.get("e") == "Pass"]
+        for budget in (6, 30):          # a loaded machine may need the longer look to get past the tokenizer
+            rc2, so2, se2, evs = obs.run(hooks if os.path.exists(hooks) else unc, ["-c", cfg, "-q", "-l", lang, "-f", src], cwd=tmp, trace=tr, flags=["PASS"], timeout=budget)
+            passes = [e["name"] for e in evs if e.get("e") == "Pass"]
+            if len(passes) > 200:
+                break
         info["last_pass"] = passes[-1] if passes else ("tokenize" if not any(e.get("e") == "Tokenized" for e in evs) else "after-tokenize")
         if len(passes) > 200:
             # the pass list keeps growing: a convergence loop that does not converge; name the loop, not the pass the kill happened in
